@@ -1215,14 +1215,13 @@ fn gen_sheet_kind(ctx: &Ctx, kind: &str, sink: &mut dyn FnMut(String)) {
             let sz = if rng.chance(1, 2) { rng.range(20, 24) } else { 0 };
             items.push(Item::Row { s: 0, r, hidden: rng.chance(1, 3), obs: format!("{h}.{sz}") });
         }
-        // column descriptors: sorted, disjoint; either single columns with any style, or multi-column
-        // descriptors sharing one style (see notes/C15.md: independent of the C29 style-split defect)
-        let single = rng.chance(1, 2);
-        let shared_style = if rng.chance(1, 2) { Some(rng.range(20, 24) as i32) } else { None };
+        // column descriptors: sorted, disjoint; single- and multi-column descriptors with any styles
+        // (set_column_width_and_style keeps the requested style when it splits a descriptor: fix F29a)
+        let single = rng.chance(1, 3);
         let mut c = rng.range(1, 4) as i32;
         for _ in 0..rng.range(0, 4) {
             let width = if single { 1 } else { rng.range(1, 4) as i32 };
-            let style = if single { if rng.chance(1, 2) { Some(rng.range(20, 24) as i32) } else { None } } else { shared_style };
+            let style = if rng.chance(1, 2) { Some(rng.range(20, 24) as i32) } else { None };
             let w = if rng.chance(3, 4) { Some(rng.range(40, 200) as i32) } else { None };
             let w = if w == Some(90) { Some(91) } else { w };
             items.push(Item::Col { s: 0, min: c, max: c + width - 1, w, hidden: rng.chance(1, 4), style });
